@@ -111,6 +111,11 @@ def one_config(ctx, desc):
     else:
         cont = gen.build_continuum(pa, units)
     sampler = pa.StatisticalContinuumSampler() if sname == "stat" else pa.ShuffleContinuumSampler(pivot_type="int_pivot" if sname == "shuffle-int" else "float_pivot")
+    if desc.get("sampler_preinitialised"):
+        # the sampler handed to compute_gamma was already initialised on THIS continuum with every annotator as ground truth: the call's own
+        # ground truth must prevail (the samples come from it)
+        sampler.init_sampling(cont, None)
+        rep.count("sampler_preinitialised_on_same_continuum")
     np.random.seed(npseed)
     try:
         with Recorder(type(sampler)) as rec:
@@ -274,6 +279,8 @@ def run(rep, tier, seed, pa):
         npseed = rng.randrange(2 ** 31)
         desc = {"units": units, "dissim": spec, "mode": mode, "sampler": sname, "precision": prec, "n_samples": n_samples,
                 "ground_truth": gt, "numpy_seed": npseed}
+        if gt is not None and ri % 2 == 0:
+            desc["sampler_preinitialised"] = True
         if ri % 5 == 4:
             after = ac.edited_case(rng, {"units": units, "spec": spec})
             if after is not None and after["edit"][0] == "move" and all(len(u) > 0 for u in after["units"]):
@@ -291,7 +298,7 @@ def run(rep, tier, seed, pa):
 def replay(rep, data, pa):
     """re-runs the recorded configuration (same NumPy seed) through every clause of the check"""
     ac.install_backend_hooks()
-    desc = {k: data.get(k) for k in ("units", "dissim", "mode", "sampler", "precision", "n_samples", "ground_truth", "numpy_seed", "units_before", "edit")}
+    desc = {k: data.get(k) for k in ("units", "dissim", "mode", "sampler", "precision", "n_samples", "ground_truth", "numpy_seed", "units_before", "edit", "sampler_preinitialised")}
     if desc["edit"] is not None:
         desc["edit"] = (desc["edit"][0], desc["edit"][1], tuple(desc["edit"][2]), tuple(desc["edit"][3]))
     if desc["units"] is None:
